@@ -469,12 +469,25 @@ def full_to_dense(ab, nbs):
     return A
 
 
-def check_normal_equations(x, nk, k, y, w, lam, diff_order, allow_lower, use_numba):
-    """Captures the left- and right-hand side PSpline.solve_pspline hands to the solver and compares with
-    the explicit dense B'WB + lam D'D and B'Wy."""
+def check_normal_equations(x, nk, k, y, w, lam, diff_order, allow_lower, use_numba, penalty_mode='own', views=False,
+                           history=False):
+    """Captures the left- and right-hand side PSpline.solve_pspline hands to the solver (the solver entry point of the object is
+    wrapped) and compares them with the explicit dense B'WB + lam D'D and B'Wy.  All tolerances are RELATIVE to the largest
+    entry of the reference (no absolute floor): weights of any magnitude must give the same relative accuracy.
+    penalty_mode 'zero' passes an all-zero penalty array, so that the captured matrix must be B'WB itself."""
     S = su()
     basis = S.SplineBasis(x, nk, k)
     ps = S.PSpline(basis, lam=lam, diff_order=diff_order, allow_lower=allow_lower)
+    if history:
+        # a rejected call in the object's history must not change what later calls assemble
+        try:
+            ps.reset_penalty_diagonals(lam=-1.0, diff_order=diff_order, allow_lower=allow_lower)
+        except ValueError:
+            pass
+        try:
+            S.PSpline(basis, lam=lam, diff_order=basis._num_bases + 1)
+        except ValueError:
+            pass
     if use_numba and not ps._use_numba:
         return 'btb:numba-path-disabled', 'PSpline does not use the compiled B\'WB path although numba is available'
     ps._use_numba = bool(use_numba)
@@ -486,13 +499,20 @@ def check_normal_equations(x, nk, k, y, w, lam, diff_order, allow_lower, use_num
         return np.zeros(len(rhs))
 
     ps.solve = capture
+    yv, wv = y, w
+    if views:
+        # same values through non-contiguous / negatively strided views
+        yv = y[::-1].copy()[::-1]
+        wv = np.repeat(w, 2)[::2]
+    pen = None if penalty_mode == 'own' else np.zeros_like(ps.penalty)
     with warnings.catch_warnings():
         warnings.simplefilter('ignore')
-        ps.solve_pspline(y, w)
+        ps.solve_pspline(yv, wv, penalty=pen)
     nbs = basis._num_bases
     B = basis.basis.toarray()
     D = np.diff(np.eye(nbs), diff_order, axis=0)
-    ref_lhs = B.T @ (w[:, None] * B) + lam * (D.T @ D)
+    ref_btwb = B.T @ (w[:, None] * B)
+    ref_lhs = ref_btwb + (lam * (D.T @ D) if penalty_mode == 'own' else 0.0)
     ref_rhs = B.T @ (w * y)
     lhs = got['lhs']
     path = 'numba' if use_numba else 'sparse'
@@ -501,14 +521,52 @@ def check_normal_equations(x, nk, k, y, w, lam, diff_order, allow_lower, use_num
     A = lower_to_dense(lhs, nbs) if ps.lower else full_to_dense(lhs, nbs)
     if A is None:
         return f'btb:{path}:corner', f'{path}: non-zero entries in the unused corners of the banded left-hand side'
-    scale = max(1.0, np.abs(ref_lhs).max())
-    if np.abs(A - ref_lhs).max() > 1e-9 * scale:
-        i, j = np.unravel_index(int(np.argmax(np.abs(A - ref_lhs))), A.shape)
-        return f'btb:{path}:lhs', (f'{path}: banded B\'WB + penalty entry ({i},{j}) = {A[i, j]!r} but the explicit product gives '
-                                   f'{ref_lhs[i, j]!r}')
-    if got['rhs'].shape != ref_rhs.shape or np.abs(got['rhs'] - ref_rhs).max() > 1e-9 * max(1.0, np.abs(ref_rhs).max()):
+    tol = 1e-9 * np.abs(ref_lhs).max()
+    if not np.all(np.isfinite(A)) or np.abs(A - ref_lhs).max() > tol:
+        i, j = np.unravel_index(int(np.nanargmax(np.abs(A - ref_lhs))), A.shape)
+        what = 'B\'WB + penalty' if penalty_mode == 'own' else 'B\'WB (zero penalty passed)'
+        return f'btb:{path}:lhs', (f'{path}: banded {what} handed to the solver has entry ({i},{j}) = {A[i, j]!r} but the explicit '
+                                   f'product gives {ref_lhs[i, j]!r} (relative to the largest entry {np.abs(ref_lhs).max()!r}; '
+                                   f'weights max {np.abs(w).max()!r})')
+    if got['rhs'].shape != ref_rhs.shape or np.abs(got['rhs'] - ref_rhs).max() > 1e-9 * np.abs(w * y).max():
         return f'btb:{path}:rhs', f'{path}: B\'Wy differs from the explicit product'
     return None
+
+
+LHS_SCALES = [1e-300, 1e-200, 1e-100, 1e-30, 1e-20, 1e-16, 1e-12, 1e-8, 1e-4, 1.0, 1e4, 1e8, 1e12, 1e16, 1e30, 1e100, 1e200, 1e290]
+
+
+def oracle_lhs_grid(ctx):
+    """FIXED, enumerated grid (not drawn): weight magnitude x assembly path x band layout x own/zero penalty on two fixed
+    problems; lam follows the weight magnitude so that the exact answer is the ordinary scale-invariant fit."""
+    problems = [
+        (np.linspace(0.0, 10.0, 25), 6, 3, 2),
+        (np.concatenate((np.linspace(1.0, 4.0, 7), [2.5, 2.5, 3.25], [4.0])), 5, 2, 1),      # unsorted, on knots, repeated
+    ]
+    for pi, (x, nk, k, d) in enumerate(problems):
+        n = len(x)
+        base_w = 0.2 + 0.8 * np.abs(np.sin(1.0 + np.arange(n)))
+        base_w[::5] = 0.0
+        y = np.cos(np.arange(n) * 0.7) + 0.1 * np.arange(n)
+        for sc in LHS_SCALES:
+            w = base_w * sc
+            lam = 4.0 * sc
+            for use_numba in (True, False):
+                for allow_lower in (True, False):
+                    for mode in ('own', 'zero'):
+                        case = {'kind': 'btb', 'x': x.tolist(), 'num_knots': nk, 'degree': k, 'y': y.tolist(), 'weights': w.tolist(),
+                                'lam': lam, 'diff_order': d, 'allow_lower': allow_lower, 'use_numba': use_numba,
+                                'penalty_mode': mode, 'views': False, 'history': False}
+                        ctx.case(('lhs-grid', pi, sc, use_numba, allow_lower, mode), nontrivial=True,
+                                 kind=f'oracle-lhs-grid:{"numba" if use_numba else "sparse"}:{"lower" if allow_lower else "full"}:{mode}')
+                        try:
+                            err = check_normal_equations(x, nk, k, y, w, lam, d, allow_lower, use_numba, mode)
+                        except Exception as exc:  # noqa
+                            err = (f'btb:{"numba" if use_numba else "sparse"}:exception:{type(exc).__name__}',
+                                   f'solve_pspline raised {type(exc).__name__}: {exc}')
+                        if err:
+                            ctx.fail(err[0], err[1] + f' [fixed grid: weight scale {sc:g}, lam {lam:g}, num_knots {nk}, degree {k}, '
+                                     f'diff_order {d}, allow_lower {allow_lower}, penalty {mode}; knots = _spline_knots(x, {nk}, {k})]', case)
 
 
 def oracle(ctx, budget):
@@ -598,14 +656,24 @@ def oracle(ctx, budget):
         elif wk == 3:
             w[n // 3:] = 0.0      # whole basis functions without data
         lam = float(10.0 ** rng.integers(-2, 4))
+        if c % 2:
+            # overall magnitude of the weights anywhere in 1e-30 .. 1e30 (sometimes 1e-250 .. 1e250); lam follows it
+            e = int(rng.integers(-30, 31)) if c % 8 != 1 else int(rng.integers(-250, 251))
+            w = w * 10.0 ** e
+            lam = lam * 10.0 ** e
+            y = y * float(10.0 ** rng.integers(-20, 21))
+        mode = 'zero' if c % 3 == 0 else 'own'
+        views = (c % 5 == 0)
+        history = (c % 4 == 0)
         for use_numba in (True, False):
             for allow_lower in (True, False):
                 case = {'kind': 'btb', 'x': x.tolist(), 'num_knots': nk, 'degree': k, 'y': y.tolist(), 'weights': w.tolist(),
-                        'lam': lam, 'diff_order': diff_order, 'allow_lower': allow_lower, 'use_numba': use_numba}
+                        'lam': lam, 'diff_order': diff_order, 'allow_lower': allow_lower, 'use_numba': use_numba,
+                        'penalty_mode': mode, 'views': views, 'history': history}
                 ctx.case(('btb', k, nk, kind, wk, x.tobytes(), use_numba, allow_lower), nontrivial=True,
                          kind=f'oracle-btb:{"numba" if use_numba else "sparse"}:w{wk}:{"N<bases" if n < nbs else "N>=bases"}')
                 try:
-                    err = check_normal_equations(x, nk, k, y, w, lam, diff_order, allow_lower, use_numba)
+                    err = check_normal_equations(x, nk, k, y, w, lam, diff_order, allow_lower, use_numba, mode, views, history)
                 except Exception as exc:  # noqa
                     path = 'numba' if use_numba else 'sparse'
                     if not use_numba and not np.any(w) and isinstance(exc, ValueError):
@@ -1111,6 +1179,179 @@ def correspondence_btwb_2d(ctx):
     return bad
 
 
+# ------------------------------------------------------------------------------ what solve_pspline hands to the solver
+SOLVE_PSPLINE_BODY = [
+    'use_backup = True',
+    "if self._use_numba:\n    basis_data = self.basis.basis.tocsr().data\n    ab = np.zeros((self.basis.spline_degree + 1, "
+    "self.basis._num_bases), order='F')\n    rhs = np.zeros(self.basis._num_bases)\n    _numba_btb_bty(self.basis.x, self.basis.knots, "
+    "self.basis.spline_degree, y, weights, ab, rhs, basis_data)\n    if not self.lower:\n        ab = _lower_to_full(ab)\n    "
+    "use_backup = False",
+    'if use_backup:\n    full_matrix = self.basis.basis.T @ dia_object((weights, 0), shape=(self.basis._x_len, self.basis._x_len))'
+    '.tocsr() @ self.basis.basis\n    rhs = self.basis.basis.T @ (weights * y)\n    ab = _sparse_to_banded(full_matrix, '
+    'self.basis._num_bases)[0]\n    if self.lower:\n        ab = ab[len(ab) // 2:]',
+    'if penalty is None:\n    penalty = self.penalty',
+    'lhs = _add_diagonals(ab, penalty, self.lower)',
+    'if rhs_extra is not None:\n    rhs = rhs + rhs_extra',
+    'self.coef = self.solve(lhs, rhs, overwrite_ab=True, overwrite_b=True, check_finite=False)',
+    'return self.basis.basis @ self.coef',
+]
+
+
+def pin_solve_pspline(ctx):
+    """Fail-closed pin of the body of PSpline.solve_pspline: between the assembly of B'WB (the modelled _numba_btb_bty, or the
+    sparse product) and the solver call only the layout conversion, the choice of the penalty and `_add_diagonals(ab, penalty,
+    self.lower)` may occur; between B'Wy and the solver only `+ rhs_extra`."""
+    import ast
+    import os
+    from .common import REPO
+    ob = 'pin:PSpline.solve_pspline(body:assembly->_add_diagonals->solver,nothing-else)'
+    ctx.obligations.append(ob)
+    try:
+        tree = ast.parse(open(os.path.join(REPO, 'pybaselines', '_spline_utils.py')).read())
+        fn = _fn(tree, 'PSpline', 'solve_pspline')
+        body = fn.body
+        if body and isinstance(body[0], ast.Expr) and isinstance(getattr(body[0], 'value', None), ast.Constant):
+            body = body[1:]
+        got = [ast.unparse(st) for st in body]
+        if got != SOLVE_PSPLINE_BODY:
+            diff = [g for g in got if g not in SOLVE_PSPLINE_BODY][:3] or ['(statements missing or reordered)']
+            raise ValueError('statements not in the pinned body: ' + ' | '.join(d[:160] for d in diff))
+        ctx.discharged.append(ob)
+    except Exception as exc:  # noqa
+        ctx.broke(ob, f'PSpline.solve_pspline no longer has the pinned body: {exc}')
+
+
+HEADER_ZI = """From Coq Require Import ZArith List Bool.
+From PB Require Import lib.CaseUtil C12.Num C12.LArr C12.Model.
+Import ListNotations.
+Open Scope Z_scope.
+"""
+
+OK_LHS_INT = """
+Definition ok (c : nat * list Z * list Z * list Z * list Z * list Z * list (list (list Z) * list Z)) : bool :=
+  let '(k, x, knots, y, w, d, outs) := c in
+  let nb := (length knots - (k + 1))%nat in
+  let '(ab, rhs) := numba_btb_bty Num_Z x knots k y w (repeat (repeat 0 nb) (k + 1)) (repeat 0 nb) d in
+  forallb (fun o => zll_eqb ab (fst o) && zl_eqb rhs (snd o)) outs.
+Eval vm_compute in (bad ok cases).
+"""
+
+
+def zlist_(v):
+    return '[' + '; '.join(str(int(a)) if a >= 0 else f'({int(a)})' for a in v) + ']'
+
+
+def correspondence_lhs_int(ctx):
+    """Exact integers: x and knots on an integer grid, the CSR data of the basis replaced by small integers (same sparsity), integer
+    weights (with zeros) and y, and an all-zero penalty array: the banded matrix and vector CAPTURED AT THE SOLVER ENTRY of
+    solve_pspline (both assembly paths, both layouts) must be exactly the B'WB / B'Wy of the verified model (Z instance)."""
+    S = su()
+    rng = np.random.default_rng(ctx.seed + 4141)
+    ob = 'correspondence:solve_pspline-lhs/rhs-at-solver-entry-exact-integers-vs-model(numba+sparse,lower+full)'
+    lits, metas = [], []
+    grid = [(k, nk, h) for k in (0, 1, 2, 3) for nk in (2, 3, 5) for h in (1, 2)]
+    extra = ctx.n(12, 120)
+    for c in range(len(grid) + extra):
+        if c < len(grid):
+            k, nk, h = grid[c]
+        else:
+            k, nk, h = int(rng.integers(0, 5)), int(rng.integers(2, 8)), int(rng.integers(1, 5))
+        lo = int(rng.integers(-5, 6))
+        hi = lo + (nk - 1) * h
+        n = int(rng.integers(2, 10))
+        x = np.concatenate(([lo, hi], rng.integers(lo, hi + 1, n - 2))).astype(float)
+        if c % 2:
+            x = np.sort(x)
+        basis = S.SplineBasis(x, nk, k)
+        if not np.all(basis.knots == np.round(basis.knots)):
+            continue
+        csr = basis.basis.tocsr()
+        if len(csr.data) != n * (k + 1):
+            continue
+        data = rng.integers(0, 4, len(csr.data)).astype(float)
+        from scipy import sparse
+        basis.basis = sparse.csr_matrix((data, csr.indices.copy(), csr.indptr.copy()), shape=csr.shape)
+        wk = c % 4
+        w = rng.integers(0, 4, n).astype(float)
+        if wk == 1:
+            w[:] = 1.0
+        elif wk == 2:
+            w[rng.random(n) < 0.6] = 0.0
+        elif wk == 3 and n > 2:
+            w[n // 2:] = 0.0
+        y = rng.integers(-3, 4, n).astype(float)
+        nbs = basis._num_bases
+        d = 1 if nbs > 1 else 0
+        if d == 0:
+            continue
+        outs = []
+        case = {'kind': 'lhs-int', 'x': x.tolist(), 'num_knots': nk, 'degree': k, 'knots': basis.knots.tolist(), 'basis_data': data.tolist(),
+                'weights': w.tolist(), 'y': y.tolist()}
+        failed = False
+        for use_numba in (True, False):
+            for allow_lower in (True, False):
+                ps = S.PSpline(basis, lam=1.0, diff_order=d, allow_lower=allow_lower)
+                ps._use_numba = bool(use_numba and ps._use_numba)
+                got = {}
+
+                def capture(lhs, rhs, *a, **kw):
+                    got['lhs'] = np.array(lhs, dtype=float, copy=True)
+                    got['rhs'] = np.array(rhs, dtype=float, copy=True)
+                    return np.zeros(len(rhs))
+
+                ps.solve = capture
+                try:
+                    with warnings.catch_warnings():
+                        warnings.simplefilter('ignore')
+                        ps.solve_pspline(y, w, penalty=np.zeros_like(ps.penalty))
+                    A = lower_to_dense(got['lhs'], nbs) if ps.lower else full_to_dense(got['lhs'], nbs)
+                    if A is None:
+                        raise ValueError('non-zero corner entries')
+                    if not np.all(A == np.round(A)) or not np.all(got['rhs'] == np.round(got['rhs'])):
+                        i, j = np.argwhere(A != np.round(A))[0] if np.any(A != np.round(A)) else (0, 0)
+                        raise ValueError(f'entry ({i},{j}) = {A[i, j]!r} is not an integer although every input is')
+                    if np.any(np.triu(A, k + 1) != 0):
+                        raise ValueError('entries outside the degree+1 bands')
+                    rows = [[A[cc + dd, cc] if cc + dd < nbs else 0.0 for cc in range(nbs)] for dd in range(k + 1)]
+                    outs.append(f'({"[" + "; ".join(zlist_(r) for r in rows) + "]"}, {zlist_(got["rhs"])})')
+                except Exception as exc:  # noqa
+                    failed = True
+                    if ob not in [b[0] for b in ctx.broken]:
+                        ctx.broke(ob, f'solve_pspline on exact integer inputs: {type(exc).__name__}: {exc}')
+                    ctx.fail('lhs-int:not-exact', f'PSpline.solve_pspline ({"numba" if use_numba else "sparse"} path, '
+                             f'{"lower" if allow_lower else "full"} layout) with integer basis data, integer weights/y and a zero penalty '
+                             f'hands the solver a matrix that is not the exact integer B\'WB: {exc}',
+                             dict(case, use_numba=use_numba, allow_lower=allow_lower))
+        ctx.case(('lhs-int', k, nk, h, x.tobytes(), w.tobytes(), data.tobytes()), nontrivial=True, kind=f'lhs-int:deg{k}:w{wk}')
+        if not failed:
+            lits.append(f'({k}%nat, {zlist_(x)}, {zlist_(basis.knots)}, {zlist_(y)}, {zlist_(w)}, {zlist_(data)}, [{"; ".join(outs)}])')
+            metas.append(case)
+    ctx.obligations.append(ob)
+    bad = False
+    per = 150
+    for s0 in range(0, len(lits), per):
+        sh = lits[s0:s0 + per]
+        text = (HEADER_ZI + '\nDefinition cases : list (nat * list Z * list Z * list Z * list Z * list Z * list (list (list Z) * list Z)) := [\n'
+                + ';\n'.join(sh) + '\n].\n' + OK_LHS_INT)
+        vals = ctx.coq_eval(f'lhsint{s0 // per}', text)
+        if vals is None:
+            bad = True
+            continue
+        v = vals[0] if vals else ''
+        if not v.startswith('(0'):
+            bad = True
+            import re
+            m = re.match(r'\((\d+)(?:%nat)?,\s*\[(.*)\]\)', v)
+            idx = [int(t.replace('%nat', '')) for t in (m.group(2).split(';') if m else []) if t.strip()]
+            ctx.broke(ob, f'the system captured at the solver entry differs from the verified model (integer instance) on {v}')
+            for i in idx[:2]:
+                ctx.fail('corr:lhs-int', 'PSpline.solve_pspline: the banded matrix / vector handed to the solver (zero penalty passed) is not the '
+                         'B\'WB / B\'Wy of the verified model of _numba_btb_bty on exact integer inputs', metas[s0 + i])
+    if not bad and ob not in [b[0] for b in ctx.broken]:
+        ctx.discharged.append(ob)
+    return bad
+
+
 def run(ctx):
     ctx.rule = ('penalized knot vectors from _spline_knots with num_knots 2..200, degree 0..6; x ranges ordinary, SCALED by 1e-15/1e-12/1e-9/1e-6/1e6/1e12/1e-300 '
                 '(and 1e-310, denormal, in the bit-exact cases) and OFFSET by +-1e6/+-1e12; x kinds '
@@ -1131,14 +1372,17 @@ def run(ctx):
     ok = ctx.build_props()
     pin_init_2d(ctx)
     pin_btwb_2d(ctx)
+    pin_solve_pspline(ctx)
     bad = correspondence(ctx)
     bad |= correspondence_2d(ctx)
     bad |= correspondence_btwb_2d(ctx)
+    bad |= correspondence_lhs_int(ctx)
     budget = 1 if (ok and not bad and not ctx.broken and ctx.tier == 'quick') else 5
+    oracle_lhs_grid(ctx)
     oracle(ctx, budget)
     oracle_2d(ctx, budget)
     oracle_btwb_2d(ctx, budget)
-    ctx.note(f'oracle budget x{budget}; 2-D: SplineBasis2D construction (each side vs its own axis, _G_r/_G_c, full basis) is oracle + bit-exact rows + pin; _make_btwb is modelled and proved (C12_btwb_2d, C12_btwb_2d_separable), pinned, tied by exact integers and searched with 14 weight families incl. constant non-unit / near-constant; the 2-D penalty and solver belong to C20; NOT covered: _spline_knots(penalized=False) '
+    ctx.note(f'oracle budget x{budget}; 1-D system: the lhs/rhs handed to the solver inside PSpline.solve_pspline are captured (numba + sparse path, lower + full layout, own and zero penalty, strided views, objects with rejected calls in their history) on a FIXED grid of weight magnitudes 1e-300..1e290 and on random magnitudes 1e-250..1e250, compared relative to the largest entry; exact-integer cases against the Z instance of the model; 2-D: SplineBasis2D construction (each side vs its own axis, _G_r/_G_c, full basis) is oracle + bit-exact rows + pin; _make_btwb is modelled and proved (C12_btwb_2d, C12_btwb_2d_separable), pinned, tied by exact integers and searched with 14 weight families incl. constant non-unit / near-constant; the 2-D penalty and solver belong to C20; NOT covered: _spline_knots(penalized=False) '
              'percentile knots only through hand-made clamped knot vectors, _basis_midpoints; values are compared with SciPy up to 1e-11, '
              'not bit-for-bit; theorems are exact-arithmetic (float rounding outside)')
 
@@ -1154,11 +1398,34 @@ def replay(rep):
         try:
             err = check_normal_equations(np.array(case['x']), case['num_knots'], case['degree'], np.array(case['y']),
                                          np.array(case['weights']), case['lam'], case['diff_order'], case['allow_lower'],
-                                         case['use_numba'])
+                                         case['use_numba'], case.get('penalty_mode', 'own'), case.get('views', False),
+                                         case.get('history', False))
         except Exception as exc:  # noqa
             err = f'solve_pspline raised {type(exc).__name__}: {exc}'
         print('replay btb:', err or 'property holds on this input')
         return 1 if err else 0
+    if kind == 'lhs-int':
+        from scipy import sparse
+        S = su()
+        x, w, y = np.array(case['x']), np.array(case['weights']), np.array(case['y'])
+        basis = S.SplineBasis(x, case['num_knots'], case['degree'])
+        csr = basis.basis.tocsr()
+        basis.basis = sparse.csr_matrix((np.array(case['basis_data']), csr.indices.copy(), csr.indptr.copy()), shape=csr.shape)
+        B = basis.basis.toarray()
+        ref = B.T @ (w[:, None] * B)
+        bad = None
+        for use_numba in (True, False):
+            for allow_lower in (True, False):
+                ps = S.PSpline(basis, lam=1.0, diff_order=1, allow_lower=allow_lower)
+                ps._use_numba = bool(use_numba and ps._use_numba)
+                got = {}
+                ps.solve = lambda lhs, rhs, *a, **kw: (got.update(lhs=np.array(lhs, dtype=float, copy=True)), np.zeros(len(rhs)))[1]
+                ps.solve_pspline(y, w, penalty=np.zeros_like(ps.penalty))
+                A = lower_to_dense(got['lhs'], B.shape[1]) if ps.lower else full_to_dense(got['lhs'], B.shape[1])
+                if A is None or not np.array_equal(A, ref):
+                    bad = f'{"numba" if use_numba else "sparse"} path, {"lower" if allow_lower else "full"} layout: matrix at the solver entry is not the exact integer B\'WB'
+        print('replay lhs-int:', bad or 'property holds on this input')
+        return 1 if bad else 0
     if kind == 'btwb2d':
         try:
             err = check_btwb_2d(np.array(case['x']), np.array(case['z']), tuple(case['num_knots']), tuple(case['degree']),
